@@ -1,0 +1,84 @@
+//go:build verif
+
+// Copyright (c) Jim Lambert
+// SPDX-License-Identifier: MIT
+
+package gldap
+
+// This file is only compiled with the "verif" build tag.  It adds no
+// behaviour: it exports thin wrappers so an external verification harness can
+// drive the package's real, unexported request-reading, routing and
+// response-writing code on in-memory byte streams.
+
+import (
+	"bufio"
+	"context"
+	"io"
+	"sync"
+
+	ber "github.com/go-asn1-ber/asn1-ber"
+	"github.com/hashicorp/go-hclog"
+)
+
+// VerifConn is an in-memory connection: the real conn struct over the given
+// reader and writer instead of a socket.
+type VerifConn struct {
+	c *conn
+}
+
+// VerifNewConn builds a conn whose buffered reader/writer sit on r and w.
+func VerifNewConn(r io.Reader, w io.Writer, router *Mux, connID int) *VerifConn {
+	if router == nil {
+		router = &Mux{}
+	}
+	c := &conn{
+		connID:      connID,
+		logger:      hclog.NewNullLogger(),
+		router:      router,
+		shutdownCtx: context.Background(),
+	}
+	c.reader = bufio.NewReader(r)
+	c.writer = bufio.NewWriter(w)
+	return &VerifConn{c: c}
+}
+
+// ReadRequest calls the real (*conn).readRequest.
+func (v *VerifConn) ReadRequest(requestID int) (*Request, error) {
+	return v.c.readRequest(requestID)
+}
+
+// NewResponseWriter returns a ResponseWriter sharing the conn's writer and lock.
+func (v *VerifConn) NewResponseWriter(requestID int) (*ResponseWriter, error) {
+	return newResponseWriter(v.c.writer, &v.c.writerMu, v.c.logger, v.c.connID, requestID)
+}
+
+// Serve calls the real (*Mux).serve of the conn's router.
+func (v *VerifConn) Serve(w *ResponseWriter, r *Request) {
+	v.c.router.serve(w, r)
+}
+
+// VerifIsUnbind reports whether the request is routed as an unbind.
+func VerifIsUnbind(r *Request) bool { return r.routeOp == unbindRouteOperation }
+
+// VerifExtendedName returns the request's extended operation name.
+func VerifExtendedName(r *Request) ExtendedOperationName { return r.extendedName }
+
+// VerifResponseBytes returns the bytes ResponseWriter.Write would put on the wire.
+func VerifResponseBytes(r Response) []byte { return r.packet().Bytes() }
+
+// VerifDecodeControl calls the real decodeControl.
+func VerifDecodeControl(p *ber.Packet) (Control, error) { return decodeControl(p) }
+
+// VerifValidateAddrPort calls the real validateAddrPort.
+func VerifValidateAddrPort(s string) (string, error) { return validateAddrPort(s) }
+
+// VerifNewResponseWriter calls the real newResponseWriter.
+func VerifNewResponseWriter(w *bufio.Writer, mu *sync.Mutex, connID, requestID int) (*ResponseWriter, error) {
+	return newResponseWriter(w, mu, hclog.NewNullLogger(), connID, requestID)
+}
+
+// VerifMuxCounts reports the number of ordinary routes and whether default
+// and unbind routes are set.
+func VerifMuxCounts(m *Mux) (routes int, hasDefault, hasUnbind bool) {
+	return len(m.routes), m.defaultRoute != nil, m.unbindRoute != nil
+}
